@@ -487,20 +487,23 @@ Definition hpaths_within (w : hpaths) (capable : N) : Prop :=
   (h_getattr w = Some true -> contains capable F_ZERO_MESSAGE_OPEN = true) /\
   (h_fsync w = Some true -> contains capable F_ZERO_MESSAGE_OPEN = true) /\
   (h_readdir w = Some true -> contains capable F_ZERO_MESSAGE_OPENDIR = true) /\
-  (h_write_kp w = Some true -> contains capable F_HANDLE_KILLPRIV_V2 = true).
+  (h_write_kp w = Some true -> contains capable F_HANDLE_KILLPRIV_V2 = true) /\
+  (h_write_append w = Some true -> contains capable F_WRITEBACK_CACHE = true).
 
 Theorem pt_hpaths_agree c t :
   let b := pt_behaviour c t in let w := pt_hpaths t in
   (h_flush w = if b_open_enosys b then UEnosys else UOk) /\
   h_getattr w = Some (b_open_enosys b) /\ h_fsync w = Some (b_open_enosys b) /\
-  h_readdir w = Some (b_opendir_enosys b) /\ h_write_kp w = Some (b_killpriv b).
+  h_readdir w = Some (b_opendir_enosys b) /\ h_write_kp w = Some (b_killpriv b) /\
+  h_write_append w = Some (b_writeback_flags b).
 Proof. repeat split; reflexivity. Qed.
 
 Theorem ovl_hpaths_agree c t :
   let b := ovl_behaviour c t in let w := ovl_hpaths t in
   (h_flush w = if b_open_enosys b then UEnosys else UOk) /\
   h_getattr w = None /\ h_fsync w = Some (b_open_enosys b) /\ h_readdir w = None /\
-  h_write_kp w = (if b_open_enosys b then None else Some (b_killpriv b)).
+  h_write_kp w = (if b_open_enosys b then None else Some (b_killpriv b)) /\
+  h_write_append w = (if b_open_enosys b then None else Some false).
 Proof. repeat split; reflexivity. Qed.
 
 Lemma hpaths_of_toggles_within (t : toggles) capable (w : hpaths) :
@@ -510,17 +513,19 @@ Lemma hpaths_of_toggles_within (t : toggles) capable (w : hpaths) :
   (h_fsync w = Some true -> t_no_open t = true) ->
   (h_readdir w = Some true -> t_no_opendir t = true) ->
   (h_write_kp w = Some true -> t_killpriv_v2 t = true) ->
+  (h_write_append w = Some true -> t_writeback t = true) ->
   hpaths_within w capable.
 Proof.
-  intros [A [B [C [D E]]]] H1 H2 H3 H4 H5. unfold hpaths_within.
+  intros [A [B [C [D E]]]] H1 H2 H3 H4 H5 H6. unfold hpaths_within.
   repeat split; intro H; auto.
 Qed.
 
 Theorem pt_hpaths_negotiated c t capable : hpaths_within (pt_hpaths (snd (pt_init c t capable))) capable.
 Proof.
   apply (hpaths_of_toggles_within _ _ _ (pt_init_any c t capable)); unfold pt_hpaths;
-    cbn [h_flush h_getattr h_fsync h_readdir h_write_kp].
+    cbn [h_flush h_getattr h_fsync h_readdir h_write_kp h_write_append].
   - destruct (t_no_open _); [reflexivity|discriminate].
+  - intro H; inversion H; reflexivity.
   - intro H; inversion H; reflexivity.
   - intro H; inversion H; reflexivity.
   - intro H; inversion H; reflexivity.
@@ -530,19 +535,20 @@ Qed.
 Theorem ovl_hpaths_negotiated c t capable : hpaths_within (ovl_hpaths (snd (ovl_init c t capable))) capable.
 Proof.
   apply (hpaths_of_toggles_within _ _ _ (ovl_init_any c t capable)); unfold ovl_hpaths;
-    cbn [h_flush h_getattr h_fsync h_readdir h_write_kp].
+    cbn [h_flush h_getattr h_fsync h_readdir h_write_kp h_write_append].
   - destruct (t_no_open _); [reflexivity|discriminate].
   - discriminate.
   - intro H; inversion H; reflexivity.
   - discriminate.
+  - destruct (t_no_open _); discriminate.
   - destruct (t_no_open _); discriminate.
 Qed.
 
 Lemma hpaths_within_subset w word opts :
   N.land word opts = word -> hpaths_within w word -> hpaths_within w opts.
 Proof.
-  intros Hs [A [B [C [D E]]]]. unfold hpaths_within.
-  rewrite ZMO_val, ZMOD_val, KP_val in *.
+  intros Hs [A [B [C [D [E F]]]]]. unfold hpaths_within.
+  rewrite ZMO_val, ZMOD_val, KP_val, WB_val in *.
   repeat split; intro H; eapply contains_subset; eauto.
 Qed.
 
@@ -552,12 +558,13 @@ Theorem vfs_hpaths_negotiated s s' t c opts :
   hpaths_within (vfs_hpaths s' (snd (pt_init c t (vfs_backend_word s opts)))) opts.
 Proof.
   apply (hpaths_within_subset _ (vfs_backend_word s opts)); [apply vfs_out_subset|].
-  pose proof (pt_hpaths_negotiated c t (vfs_backend_word s opts)) as [A [B [C [D E]]]].
+  pose proof (pt_hpaths_negotiated c t (vfs_backend_word s opts)) as [A [B [C [D [E F]]]]].
   set (tb := snd (pt_init c t (vfs_backend_word s opts))) in *.
-  unfold hpaths_within, vfs_hpaths. cbn [h_flush h_getattr h_fsync h_readdir h_write_kp].
+  unfold hpaths_within, vfs_hpaths. cbn [h_flush h_getattr h_fsync h_readdir h_write_kp h_write_append].
   repeat split; try assumption.
   - intro H. apply A. destruct (h_flush (pt_hpaths tb)); [destruct (vfs_open_enosys s'); discriminate|reflexivity|discriminate].
   - intro H. apply E. destruct (vfs_open_enosys s' && negb (t_no_open tb)); [discriminate|exact H].
+  - intro H. apply F. destruct (vfs_open_enosys s' && negb (t_no_open tb)); [discriminate|exact H].
 Qed.
 
 (* per-file DAX with a dax_file_size threshold: still only with the negotiated switch *)
